@@ -1,5 +1,13 @@
 """C12 -- confidence bands follow their definitions, bracket the winner, only add bands.
 
+T-gen : translator/gen_conf_kernels.py regenerates coq/Gen/ConfKernels.v from the Python text of the numba kernels
+        compute_ambiguity, compute_ambiguity_and_sampled_ambiguity (ambiguity.py), compute_risk (risk.py) and
+        compute_interval_bounds (interval_bounds.py) -- prelude, pixel body of the prange nest, return -- and of
+        Ambiguity.normalize_with_percentile, statement by statement into the numpy semantics of coq/Lib/NpVec.v, fail closed (and checks the call sites in the three
+        confidence_prediction methods: orientation of the volume for max measures, sampled ambiguity handed to
+        compute_risk, type_factor); Proofs/ConfGenP.v re-proves at every run that the generated kernels equal
+        Model/Confidence.v on every pixel curve and on every volume (degenerate ones included), and Props/C12.v
+        restates the headline theorems on the generated definitions (C12_gen_*).
 T-corr: the extracted model (Model/Confidence.v: ambiguity, percentile normalisation, risk, interval
         bounds, regularisation, std band (variance, NaN border), band bookkeeping, indicator naming, WTA; and
         Model/ConfPipeline.v: the stacked confidence steps followed by the wta disparity step on the whole state) against the
@@ -21,7 +29,7 @@ import xarray as xr
 from harness import core
 from harness import pandora_util as pu
 
-GEN = []
+GEN = ["gen_conf_kernels"]
 EXTRACT_FILES = ["X12"]
 DRIVERS = ["x12"]
 RULE = ("kernel stream: cost volumes 3..6 x 3..8 x 2..7 (plus 1..2-pixel volumes), dyadic costs with span a power "
@@ -42,7 +50,18 @@ ASSUMES = [
     "model as exact rationals of the float values; the number of eta samples is cross-checked against the sampled "
     "ambiguity returned by the real kernel",
     "np.argsort in compute_interval_bounds is modelled by its contract (a permutation: min/max index of the "
-    "selected set); numba's nanquantile / numpy's percentile by linear interpolation between order statistics",
+    "selected set; in the generated kernel it is a parameter and the theorems hold for every function returning the "
+    "indices of its argument); numba's nanquantile / numpy's percentile by linear interpolation between order "
+    "statistics",
+    "T-gen: the meaning of each numpy / numba operation of the kernels (coq/Lib/NpVec.v: IEEE specials, x/0 = NaN or "
+    "+-inf as the compiled parallel kernels give, NaN-skipping nanmin/nanmax/nanmean, repeat / reshape / T / flatten / "
+    "boolean-mask assignment and indexing, negative index wrap-around, partial operations fail) is hand-written and "
+    "validated only through the correspondence of the model it is proved equal to; x/0 follows the default build "
+    "(PANDORA_NUMBA_PARALLEL unset or True: NaN / +-inf; with PANDORA_NUMBA_PARALLEL=False the compiled kernels raise "
+    "ZeroDivisionError on a volume whose finite costs are all equal -- outside the property's domain); float32 storage of the result "
+    "arrays and float rounding are outside it (bridging rule b); np.percentile is a parameter of the generated "
+    "normalize_with_percentile (contract: linear interpolation); interval_regularization, std_intensity and "
+    "allocate_confidence_map are NOT translated (hand-written model, correspondence only)",
     "std_intensity: the model band holds the window variance (the square root is not rational); band^2 is "
     "compared with it (NaN pattern exactly); the float 10**-15 of the tiny-variance zeroing is data",
     "transparency: proved for abstract steps (C12_confidence_steps_transparent) and instantiated "
@@ -56,8 +75,44 @@ ASSUMES = [
     "std_intensity on an image with NaN pixels: the model follows np.nancumsum (NaN counts as 0, in the image and in "
     "its square); the oracle of the property is applied only to windows without a NaN pixel",
 ]
-TRUSTED = ["numpy/xarray primitives used by allocate_confidence_map (np.append, drop_dims, DataArray construction) "
+TRUSTED = ["translator/gen_conf_kernels.py (Python ast -> Gallina over Lib/NpVec.v, fail closed) and Lib/NpVec.v",
+           "numpy/xarray primitives used by allocate_confidence_map (np.append, drop_dims, DataArray construction) "
            "are observed through the datasets they produce"]
+
+GEN_OBLIGATIONS = [
+    "C12_gen_amb_pixel_eq: forall mn <> mx, etas, curve: the generated pixel body of compute_ambiguity (called with the "
+    "prelude values min_cost = mn, max_cost = mx, nb_disps = len(curve), two_dim_etas = etas tiled) succeeds (no shape "
+    "mismatch / index error in any numpy operation) and returns Model.Confidence.amb_pixel (Proofs/ConfGenP.v "
+    "gen_amb_pixel_eq, re-proved against the regenerated text of Ambiguity.compute_ambiguity)",
+    "C12_gen_samp_pixel_eq: same for compute_ambiguity_and_sampled_ambiguity: (amb_pixel, per eta the number of costs "
+    "within eta of the pixel's best / nb_disps for an all-NaN curve)",
+    "C12_gen_risk_pixel_eq: the generated pixel body of compute_risk, fed with the sampled ambiguity of the generated "
+    "compute_ambiguity_and_sampled_ambiguity (call site of Risk.confidence_prediction checked by the translator), "
+    "succeeds and returns Model.Confidence.risk_pixel (both components, NaN matched exactly)",
+    "C12_gen_bounds_pixel_eq: the generated pixel body of compute_interval_bounds = Model.Confidence.bounds_pixel for "
+    "every np.argsort that returns the indices of its argument (any permutation), every threshold / type_factor / "
+    "disparity axis of the curve's length",
+    "C12_gen_two_dim_etas: the generated prelude expression np.repeat(etas, nb_disps).reshape((-1, nb_disps)).T.flatten() "
+    "succeeds for nb_disps >= 1 and is the eta samples tiled nb_disps times",
+    "C12_gen_amb_kernel_eq / C12_gen_risk_kernel_eq / C12_gen_bounds_kernel_eq: the whole generated kernels (prelude "
+    "np.nanmin / np.nanmax of the volume, cv.shape, two_dim_etas, initial value of the result arrays, the pixel body at "
+    "every (row, col)) = amb_map / risk_map / bounds_map of the model for EVERY volume with >= 1 pixel and >= 1 disparity: "
+    "two distinct finite costs (the property's domain) or degenerate (no finite cost / all finite costs equal: the kernels' "
+    "0/0 = NaN branch, maximum ambiguity, NaN risk and bounds)",
+    "C12_gen_ambiguity_def, C12_gen_risk_order, C12_gen_risk_finite, C12_gen_bounds_bracket_wta: the headline theorems "
+    "restated on the generated kernels; C12_gen_argsort_contract_satisfiable; Example C12_example_gen (vm_compute of "
+    "the generated kernels on a curve with a NaN hole and a tie)",
+    "C12_gen_normalize_eq / C12_gen_normalised_in_01: the generated Ambiguity.normalize_with_percentile (np.copy, two "
+    "np.percentile, np.clip(out=), np.min, np.max, zero-range guard, rescaling) = Model.Confidence.normalize_percentile "
+    "with the guard, for every non-empty ambiguity map and every np.percentile that interpolates linearly between the "
+    "order statistics (C12_gen_percentile_contract_satisfiable); every value finite in [0, 1]",
+    "translator gen_conf_kernels: decorator njit(signature, parallel=literal_eval(os.environ.get(...)), cache=True) and "
+    "numba signature of the four kernels, loop headers prange(n_row) / prange(n_col), stores only at [row, col], "
+    "in-place writes only into fresh local arrays, call sites of the three confidence_prediction methods "
+    "(cost_volume = -cost_volume for max measures; normalisation only when self._normalization, then ambiguity = 1 - "
+    "ambiguity, then allocate_confidence_map; self._percentile = self._PERCENTILE; type_factor -1.0 / 1.0; cv['disp'] as "
+    "disparity axis)",
+]
 
 ETAS = [(0.7, 0.01), (0.5, 0.125), (0.3, 0.1)]
 THRESHOLDS = [0.5, 0.9, 1.0]
@@ -950,6 +1005,7 @@ CORPUS = [
 
 def run(ctx):
     _merge_proposed_known()
+    ctx.gen_obligations = list(GEN_OBLIGATIONS)
     rng = ctx.rng
     quick = ctx.tier == "quick"
     model = core.Model("x12")
